@@ -867,6 +867,18 @@ func (ctx Ctx) callExpr(s *ast.CallExpr) coq.Expr {
 					interfaceName = unqualifyName(interfaceName)
 					structName = unqualifyName(structName)
 					if interfaceName != structName && interfaceName != "" && structName != "" {
+						// the conversion S__to__I exists for a named interface and a
+						// struct value only
+						if _, ok := signature.Params().At(j).Type().(*types.Named); !ok {
+							ctx.unsupported(s, "passing a value as the interface type literal %s (declare a named interface type)", interfaceName)
+							return nil
+						}
+						_, named := ctx.typeOf(s.Args[0]).(*types.Named)
+						_, isStruct := ctx.typeOf(s.Args[0]).Underlying().(*types.Struct)
+						if !named || !isStruct {
+							ctx.unsupported(s, "passing a value of type %s as interface %s (only struct values are converted)", structName, interfaceName)
+							return nil
+						}
 						conversion := coq.StructToInterfaceDecl{
 							Fun:       ctx.expr(s.Fun).Coq(true),
 							Struct:    structName,
@@ -2357,6 +2369,11 @@ func (ctx Ctx) callExprInterface(cvs []coq.Decl, r *ast.CallExpr) []coq.Decl {
 	if signature, ok := ctx.typeOf(r.Fun).(*types.Signature); ok {
 		params := signature.Params()
 		for j := 0; j < params.Len(); j++ {
+			if _, ok := params.At(j).Type().(*types.Named); !ok {
+				// a conversion is named after the interface type: type
+				// literals have none (the call itself is reported)
+				continue
+			}
 			interfaceName = params.At(j).Type().String()
 			interfaceName = unqualifyName(interfaceName)
 			if v, ok := params.At(j).Type().Underlying().(*types.Interface); ok {
